@@ -255,6 +255,9 @@ func cmdCheck(args []string) {
 	var records []oblRecord
 	var knownHit []string
 	var samples []interface{}
+	var lastReplay *replayResult
+	replayed := 0
+	_ = replayed
 	report := func(o *Obl, reason string, confirmed bool) {
 		violations++
 		info := map[string]interface{}{
@@ -263,6 +266,13 @@ func cmdCheck(args []string) {
 		}
 		if o.ctx != nil {
 			info["smt2"] = o.script(true)
+			if o.ctx.fn != nil {
+				info["package_dir"] = filepath.Dir(e.fset.Position(o.ctx.fn.Pos()).Filename)
+			}
+		}
+		if lastReplay != nil {
+			info["replay"] = lastReplay
+			lastReplay = nil
 		}
 		path := writeReplayFile(*verif, prop, o.Name, info)
 		suffix := ""
@@ -335,8 +345,18 @@ func cmdCheck(args []string) {
 				samples = append(samples, map[string]interface{}{"obligation": rec.Name, "kind": o.Kind, "clause": o.Clause, "smt_bytes": o.Size, "solver": o.Solver, "time_s": o.TimeS})
 			}
 		case "sat":
-			confirmed := e.tryReplay(o, prop, *verif)
-			report(o, "refuted: the solver found a counterexample", confirmed)
+			rp := e.tryReplay(o, prop, *verif)
+			lastReplay = rp
+			reason := "refuted: the solver found a counterexample"
+			if rp.Confirmed {
+				reason += "; replayed on the real code: the clause is false for the solver's input"
+				replayed++
+			} else if rp.Attempted {
+				reason += "; replay on the real code did not reproduce it (" + rp.Reason + ")"
+			} else {
+				reason += "; not replayable (" + rp.Reason + ")"
+			}
+			report(o, reason, rp.Confirmed)
 		default:
 			report(o, "undecided ("+o.Result+") on an obligation that is claimed as discharged on the unchanged tree", false)
 		}
